@@ -43,7 +43,7 @@ def dirtyUnlessQuirk (c : Ctx) (db : Db) : Db :=
 
 inductive ExpArg where
   | ex (n : Int) | px (n : Int) | exat (n : Int) | pxat (n : Int) | keepttl | persist
-  deriving Repr, BEq
+  deriving Repr, DecidableEq
 
 def ExpArg.invalid : ExpArg → Bool
   | .ex n | .px n | .exat n | .pxat n => n ≤ 0
@@ -932,17 +932,19 @@ def cmdCopy (c : Ctx) (db : Db) (src dst : Bytes) (replace : Bool) : R :=
     let id := db.nextId + 1
     R.ok { keys := ainsert dst { e with id := id } db.keys, nextId := id, dirty := true } (.int 1)
 
-/-- `expire` with the option chain nx → xx → gt → lt -/
-def cmdExpireAt (c : Ctx) (db : Db) (k : Bytes) (deadline : Int) (opt : Bytes) : R :=
+inductive ExpireOpt where | none | nx | xx | gt | lt deriving Repr, BEq, DecidableEq, Inhabited
+
+/-- `expire` with its option (the grammar admits at most one of NX / XX / GT / LT) -/
+def cmdExpireAt (c : Ctx) (db : Db) (k : Bytes) (deadline : Int) (opt : ExpireOpt) : R :=
   match db.live c.now k with
   | none => R.ok db (.int 0)
   | some e =>
-    let refuse :=
-      if opt == sb "nx" then e.exp.isSome
-      else if opt == sb "xx" then e.exp.isNone
-      else if opt == sb "gt" then (match e.exp with | none => true | some d => !(deadline > d))
-      else if opt == sb "lt" then (match e.exp with | none => false | some d => !(deadline < d))
-      else false
+    let refuse : Bool := match opt with
+      | .nx => e.exp.isSome
+      | .xx => e.exp.isNone
+      | .gt => (match e.exp with | Option.none => true | some d => !decide (deadline > d))
+      | .lt => (match e.exp with | Option.none => false | some d => !decide (deadline < d))
+      | .none => false
     if refuse then R.ok db (.int 0)
     else
       let (db1, e1) := bump c db e
